@@ -1,4 +1,465 @@
+/* c11_ops.h — scale / rotate / translate, bounds, invert and the is_* predicates. */
 #ifndef C11_OPS_H
 #define C11_OPS_H
-static void c11_run_ops(int th) { (void)th; }
+#include "c11_common.h"
+
+/* ---------------------------------------------------------------- matrix catalogues */
+/* 5 free entries e0..e4 over an alphabet: [[e0,e1,e2],[e3,e4,e1],[e3,0,1]] — every row and column
+ * has a free entry, the last row is projective when e3 != 0 */
+static const int32_t S5[5] = { 0, 0x10000, -0x8000, 1, FX_MAX };
+static void srt_matrix(uint64_t k, int n, pixman_transform_t *m)
+{
+    int32_t e[5];
+    for (int i = 0; i < 5; i++) { e[i] = S5[k % n]; k /= n; }
+    m->matrix[0][0] = e[0]; m->matrix[0][1] = e[1]; m->matrix[0][2] = e[2];
+    m->matrix[1][0] = e[3]; m->matrix[1][1] = e[4]; m->matrix[1][2] = e[1];
+    m->matrix[2][0] = e[3]; m->matrix[2][1] = 0;    m->matrix[2][2] = 0x10000;
+}
+static void to64(const pixman_transform_t *m, int64_t o[3][3]) { for (int i = 0; i < 3; i++) for (int j = 0; j < 3; j++) o[i][j] = m->matrix[i][j]; }
+static void transpose(const pixman_transform_t *m, pixman_transform_t *o) { for (int i = 0; i < 3; i++) for (int j = 0; j < 3; j++) o->matrix[i][j] = m->matrix[j][i]; }
+
+/* ---------------------------------------------------------------- scale / rotate / translate */
+typedef struct { int op; pixman_transform_t *f, *r; pixman_fixed_t a, b; } srt_args;
+static int thunk_srt(void *p)
+{
+    srt_args *x = p;
+    switch (x->op) {
+    case 0: return pixman_transform_scale(x->f, x->r, x->a, x->b);
+    case 1: return pixman_transform_rotate(x->f, x->r, x->a, x->b);
+    default: return pixman_transform_translate(x->f, x->r, x->a, x->b);
+    }
+}
+static const char *opname[3] = { "scale", "rotate", "translate" };
+
+/* candidates for 1/s in 16.16: floor and ceil of 2^32/s (the statement's "16.16 resolution") */
+static int inv_cands(int32_t s, int64_t c[2])
+{
+    i128 q, r, num = (i128)1 << 32, den = s;
+    if (den < 0) { num = -num; den = -den; }
+    floordiv(num, den, &q, &r);
+    c[0] = (int64_t)q;
+    if (r == 0) return 1;
+    c[1] = (int64_t)q + 1;
+    return 2;
+}
+static int fits32(int64_t v) { return v >= INT32_MIN && v <= INT32_MAX; }
+
+static int in_adm(iv_t adm[3][3], const pixman_transform_t *m, int *bi, int *bj)
+{
+    for (int i = 0; i < 3; i++) for (int j = 0; j < 3; j++) if (!iv_has(adm[i][j], m->matrix[i][j])) { *bi = i; *bj = j; return 0; }
+    return 1;
+}
+
+typedef struct { int nm; } srt_ctx;
+
+static void srt_block(uint64_t idx, void *ctx)
+{
+    const srt_ctx *sc = ctx;
+    int op = (int)(idx % 3), mode = (int)(idx / 3 % 3);          /* mode 0: forward only, 1: reverse only, 2: both */
+    uint64_t mi = idx / 9;
+    pixman_transform_t F0, R0;
+    srt_matrix(mi, sc->nm, &F0); transpose(&F0, &R0);
+    int64_t F64[3][3], R64[3][3]; to64(&F0, F64); to64(&R0, R64);
+    uint64_t n = 0, nt = 0;
+    char fb[400], rb[400], ob[400], q0[48], q1[48], pa[40], pb[40];
+    c11_blk_begin();
+    for (int ia = 0; ia < 21; ia++) for (int ib = 0; ib < 21; ib++) {
+        int32_t a = A21[ia], b = A21[ib];
+        n++;
+        /* ----- oracle ----- */
+        int want_f = V_TRUE, want_r = V_TRUE, inx = 0, inv_unrep = 0;
+        iv_t af[3][3]; iv_t ar[4][3][3]; int ncr = 0, cr_ok[4] = { 0, 0, 0, 0 };
+        if (mode != 1) {
+            int64_t T[3][3] = { { 0 } };
+            if (op == 0) { T[0][0] = a; T[1][1] = b; T[2][2] = 65536; }
+            else if (op == 1) { T[0][0] = a; T[0][1] = -(int64_t)b; T[1][0] = b; T[1][1] = a; T[2][2] = 65536; }
+            else { T[0][0] = T[1][1] = T[2][2] = 65536; T[0][2] = a; T[1][2] = b; }
+            want_f = adm_matmul(T, F64, af, &inx);
+        }
+        if (mode != 0) {
+            if (op == 0) {
+                if (a == 0 || b == 0) want_r = V_FALSE;
+                else {
+                    int64_t cx[2], cy[2]; int nx = inv_cands(a, cx), ny = inv_cands(b, cy);
+                    int all_true = 1, all_false = 1, xr = 0, yr = 0;
+                    for (int i = 0; i < nx; i++) xr |= fits32(cx[i]);
+                    for (int j = 0; j < ny; j++) yr |= fits32(cy[j]);
+                    inv_unrep = !xr || !yr;
+                    for (int i = 0; i < nx; i++) for (int j = 0; j < ny; j++) {
+                        int v;
+                        if (!fits32(cx[i]) || !fits32(cy[j])) v = V_FALSE;
+                        else {
+                            int64_t T[3][3] = { { cx[i], 0, 0 }, { 0, cy[j], 0 }, { 0, 0, 65536 } }; int k;
+                            v = adm_matmul(R64, T, ar[ncr], &k); inx |= k;
+                            cr_ok[ncr] = v != V_FALSE;
+                        }
+                        ncr++;
+                        if (v != V_TRUE) all_true = 0;
+                        if (v != V_FALSE) all_false = 0;
+                    }
+                    want_r = all_true ? V_TRUE : all_false ? V_FALSE : V_EITHER;
+                    /* observation: the library truncates 2^32/s where round-to-nearest would differ */
+                    i128 tq = ((i128)1 << 32) / a, tr = ((i128)1 << 32) % a; if (tr < 0) tr = -tr;
+                    i128 aa = a < 0 ? -(i128)a : a;
+                    if (2 * tr > aa && mode == 1 && ib == 1 && mi == 0) ST_ADD(scale_inv_trunc_differs, 1);   /* distinct sx values */
+                    (void)tq;
+                }
+            } else {
+                int64_t T[3][3] = { { 0 } }; int k;
+                if (op == 1) { T[0][0] = a; T[0][1] = b; T[1][0] = -(int64_t)b; T[1][1] = a; T[2][2] = 65536; }
+                else { T[0][0] = T[1][1] = T[2][2] = 65536; T[0][2] = -(int64_t)a; T[1][2] = -(int64_t)b; }
+                want_r = adm_matmul(R64, T, ar[0], &k); inx |= k; ncr = 1; cr_ok[0] = want_r != V_FALSE;
+            }
+        }
+        int want = verdict_and(want_f, want_r);
+        nt += inx || want != V_TRUE;
+        /* ----- library ----- */
+        pixman_transform_t F = F0, R = R0;
+        srt_args args = { op, mode != 1 ? &F : NULL, mode != 0 ? &R : NULL, a, b };
+        int ret = c11_guard(thunk_srt, &args);
+        char key[64];
+        int negmin = (op == 1 && b == FX_MIN) || (op == 2 && mode != 0 && (a == FX_MIN || b == FX_MIN));
+#define SRT_FMT "pixman_transform_%s(%s, %s, %s, %s) forward=%s reverse=%s"
+#define SRT_ARGS opname[op], mode != 1 ? "forward" : "NULL", mode != 0 ? "reverse" : "NULL", \
+                 fx_str(a, pa), fx_str(b, pb), mat_str(&F0, fb, sizeof fb), mat_str(&R0, rb, sizeof rb)
+        if (ret < 0) { snprintf(key, sizeof key, "c11-%s-abort", opname[op]); c11_fail(key, "aborts: %s; " SRT_FMT, c11_abort_msg, SRT_ARGS); }
+        else if (op == 0 && (a == 0 || b == 0) && mode == 0) { /* forward-only scale by 0: the library refuses; the statement does not say: either */ }
+        else if (ret && want == V_FALSE) {
+            if (op == 0 && inv_unrep && want_f != V_FALSE) snprintf(key, sizeof key, "c11-scale-inverse-wrapped");
+            else if (negmin) snprintf(key, sizeof key, "c11-%s-negated-min-wraps", opname[op]);
+            else snprintf(key, sizeof key, "c11-%s-true-on-overflow", opname[op]);
+            c11_fail(key, "returned TRUE (reverse result %s) but %s; " SRT_FMT, mode != 0 ? mat_str(&R, ob, sizeof ob) : "-",
+                     op == 0 && inv_unrep ? "1/sx or 1/sy (2^32/s) does not fit 16.16, so the reverse matrix cannot be represented: expected FALSE"
+                                          : "the exact result has an entry outside 16.16: expected FALSE", SRT_ARGS);
+        } else if (!ret && want == V_TRUE) {
+            snprintf(key, sizeof key, negmin ? "c11-%s-negated-min-wraps" : "c11-%s-false-without-overflow", opname[op]);
+            c11_fail(key, "returned FALSE but every entry of the exact result is representable; " SRT_FMT, SRT_ARGS);
+        } else if (ret) {
+            int bi = 0, bj = 0;
+            if (mode != 1 && !in_adm(af, &F, &bi, &bj)) {
+                snprintf(key, sizeof key, negmin ? "c11-%s-negated-min-wraps" : "c11-%s-forward-not-rounded", opname[op]);
+                c11_fail(key, "forward'[%d][%d] = %d, admissible [%s,%s]; result %s; " SRT_FMT, bi, bj, F.matrix[bi][bj], i128_str(af[bi][bj].lo, q0),
+                         i128_str(af[bi][bj].hi, q1), mat_str(&F, ob, sizeof ob), SRT_ARGS);
+            } else if (mode != 0) {
+                int ok = 0;
+                for (int c = 0; c < ncr && !ok; c++) if (cr_ok[c] && in_adm(ar[c], &R, &bi, &bj)) ok = 1;
+                if (!ok) {
+                    snprintf(key, sizeof key, negmin ? "c11-%s-negated-min-wraps" : (op == 0 && inv_unrep) ? "c11-scale-inverse-wrapped" : "c11-%s-reverse-not-rounded", opname[op]);
+                    int show = -1; for (int c = 0; c < ncr; c++) if (cr_ok[c]) show = c;
+                    if (show >= 0) in_adm(ar[show], &R, &bi, &bj);
+                    c11_fail(key, "reverse' = %s matches no admissible result (entry [%d][%d] = %d vs [%s,%s] for the last of %d inverse candidate(s)); " SRT_FMT,
+                             mat_str(&R, ob, sizeof ob), bi, bj, R.matrix[bi][bj], show >= 0 ? i128_str(ar[show][bi][bj].lo, q0) : "-",
+                             show >= 0 ? i128_str(ar[show][bi][bj].hi, q1) : "-", ncr, SRT_ARGS);
+                }
+            }
+        }
+        vf_outcome(vf_mix(vf_mix((uint64_t)(ret + 3), ret > 0 && mode != 1 ? mat_hash(&F, 3) : 1), ret > 0 && mode != 0 ? mat_hash(&R, 4) : 2));
+        if (ret > 0 && inx && mode == 2 && ia == 10 && ib == 3 && mi % 37 == 11 && c11_want_sample(2))
+            vf_sample("%s(forward, reverse, %s, %s): forward %s -> %s (all entries admissible)", opname[op], fx_str(a, pa), fx_str(b, pb), mat_str(&F0, fb, sizeof fb),
+                      mat_str(&F, ob, sizeof ob));
+    }
+    c11_blk_end();
+    vf_count_eval(n); vf_count_nontrivial(nt); vf_count_libcalls(n);
+}
+
+/* ---------------------------------------------------------------- bounds */
+static const int32_t BL[5] = { 0, 0x10000, -0x10000, 0x18000, 1 };                       /* linear part */
+static const int32_t BT[5] = { 0, 0x8000, 0x7fff0000, 0x7fff0001, FX_MIN };              /* translation */
+static const int32_t BR[4][3] = { { 0, 0, 0x10000 }, { 0, 0, 0x20000 }, { 1, 0, 0x10000 }, { 0, 0, -0x10000 } };  /* last row */
+static const int16_t BX[5] = { -32768, -3, 0, 1, 32767 };
+static const int16_t BY[4] = { -32768, 0, 2, 32767 };
+
+typedef struct { int nbox; } bnd_ctx;
+static int thunk_bounds(void *p) { void **a = p; return pixman_transform_bounds(a[0], a[1]); }
+
+static void bounds_block(uint64_t idx, void *ctx)
+{
+    const bnd_ctx *bc = ctx;
+    int dims[7] = { 5, 5, 5, 5, 5, 5, 4 }, d[7];
+    vf_decode(idx, dims, 7, d);
+    pixman_transform_t m;
+    m.matrix[0][0] = BL[d[0]]; m.matrix[0][1] = BL[d[1]]; m.matrix[1][0] = BL[d[2]]; m.matrix[1][1] = BL[d[3]];
+    m.matrix[0][2] = BT[d[4]]; m.matrix[1][2] = BT[d[5]];
+    for (int j = 0; j < 3; j++) m.matrix[2][j] = BR[d[6]][j];
+    uint64_t n = 0, nt = 0;
+    char mb[400], q0[48], q1[48];
+    c11_blk_begin();
+    for (int bi = 0; bi < bc->nbox; bi++) {
+        /* quick: 100 boxes = 25 x-pairs x 4 y-pairs (y1 = y2 diag + ...); thorough: all 25 x 16 */
+        int xi = bi % 25, yi = bi / 25;
+        pixman_box16_t box = { BX[xi % 5], BY[yi % 4], BX[xi / 5], BY[bc->nbox == 400 ? yi / 4 : (yi + 1) % 4] };
+        pixman_box16_t in = box;
+        n++;
+        /* oracle: the four corners through the transform_point oracle */
+        int cx[4] = { in.x1, in.x2, in.x2, in.x1 }, cy[4] = { in.y1, in.y1, in.y2, in.y2 };
+        coord_t co[4][2]; int want = V_TRUE, ceil_over = 0, ceil_maybe = 0;
+        for (int k = 0; k < 4; k++) {
+            int64_t v[3] = { (int64_t)cx[k] * 65536, (int64_t)cy[k] * 65536, 65536 };
+            i128 W = (i128)m.matrix[2][0] * v[0] + (i128)m.matrix[2][1] * v[1] + (i128)m.matrix[2][2] * v[2];
+            i128 aw = W < 0 ? -W : W; int exact = aw < ((i128)1 << 48);
+            for (int c = 0; c < 2; c++) {
+                i128 N = (i128)m.matrix[c][0] * v[0] + (i128)m.matrix[c][1] * v[1] + (i128)m.matrix[c][2] * v[2];
+                co[k][c] = tp_coord(N, W, exact, I32_MIN_, I32_MAX_, 0);
+                want = verdict_and(want, co[k][c].verdict);
+                if (co[k][c].verdict != V_FALSE) {
+                    /* ceil of a value above 32767.0 is 32768: not an int16 */
+                    i128 lo = co[k][c].adm.lo < I32_MIN_ ? I32_MIN_ : co[k][c].adm.lo, hi = co[k][c].adm.hi > I32_MAX_ ? I32_MAX_ : co[k][c].adm.hi;
+                    if (lo > 0x7fff0000) ceil_over = 1; else if (hi > 0x7fff0000) ceil_maybe = 1;
+                }
+            }
+        }
+        if (ceil_over) want = V_FALSE; else if (ceil_maybe && want == V_TRUE) want = V_EITHER;
+        nt += want != V_TRUE || co[0][0].inexact || co[2][1].inexact;
+        void *args[2] = { &m, &box };
+        int ret = c11_guard(thunk_bounds, args);
+#define BND_FMT "pixman_transform_bounds(M=%s, box (%d,%d)-(%d,%d))"
+#define BND_ARGS mat_str(&m, mb, sizeof mb), in.x1, in.y1, in.x2, in.y2
+        if (ret < 0) c11_fail("c11-bounds-abort", "aborts: %s; " BND_FMT, c11_abort_msg, BND_ARGS);
+        else if (ret) {
+            /* TRUE => the box contains every corner (some admissible rounded position of it) */
+            int bad = -1, badc = 0;
+            for (int k = 0; k < 4 && bad < 0; k++) for (int c = 0; c < 2; c++) {
+                i128 lo = (i128)(c ? box.y1 : box.x1) * 65536, hi = (i128)(c ? box.y2 : box.x2) * 65536;
+                iv_t a = co[k][c].adm;
+                if (a.lo < I32_MIN_) a.lo = I32_MIN_;
+                if (a.hi > I32_MAX_) a.hi = I32_MAX_;
+                if (iv_is_empty(a) || a.hi < lo || a.lo > hi) { bad = k; badc = c; break; }
+            }
+            if (bad >= 0) {
+                iv_t a = co[bad][badc].adm;
+                const char *key = "c11-bounds-corner-outside";
+                if (!iv_is_empty(a) && a.hi > 0x7fff0000 && a.lo <= I32_MAX_) key = "c11-bounds-ceil-wrapped";
+                if (co[bad][badc].verdict == V_FALSE) key = "c11-bounds-true-on-unrepresentable-corner";
+                c11_fail(key, "returned TRUE with box (%d,%d)-(%d,%d) which does not contain corner %d (%d,%d): its transformed %c is in [%s,%s]/65536%s; " BND_FMT,
+                         box.x1, box.y1, box.x2, box.y2, bad, cx[bad], cy[bad], "xy"[badc], i128_str(a.lo, q0), i128_str(a.hi, q1),
+                         !strcmp(key, "c11-bounds-ceil-wrapped") ? " (above 32767.0: the upper bound 32768 is not an int16, pixman_fixed_ceil wrapped; expected FALSE)" : "", BND_ARGS);
+            }
+        } else if (want == V_TRUE)
+            c11_fail("c11-bounds-false-without-overflow", "returned FALSE but all four corners are representable and below 32767.0; " BND_FMT, BND_ARGS);
+        vf_outcome(ret > 0 ? vf_hash64(&box, sizeof box, 5) : (uint64_t)(ret + 9));
+        if (ret > 0 && bi == 37 && idx % 501 == 77 && c11_want_sample(3))
+            vf_sample("bounds M=%s box (%d,%d)-(%d,%d) -> TRUE (%d,%d)-(%d,%d), contains the 4 exact corners", mat_str(&m, mb, sizeof mb), in.x1, in.y1, in.x2, in.y2,
+                      box.x1, box.y1, box.x2, box.y2);
+    }
+    c11_blk_end();
+    vf_count_eval(n); vf_count_nontrivial(nt); vf_count_libcalls(n);
+}
+
+/* ---------------------------------------------------------------- invert */
+typedef struct { const int32_t *al; int n, outer, mode; } inv_ctx;   /* mode 0: 9 digits; mode 1: 6 affine digits x 4 last rows */
+static const int32_t IR[4][3] = { { 0, 0, 0x10000 }, { 0, 0, 1 }, { 0x10000, 0, 0x10000 }, { FX_MAX, FX_MIN, FX_MAX } };
+static int thunk_invert(void *p) { void **a = p; return pixman_transform_invert(a[0], a[1]); }
+
+static void invert_one(const pixman_transform_t *m, uint64_t *nt, int sample_ok)
+{
+    /* exact adjugate and determinant (raw: entries are integers k, value k/65536) */
+    i128 cof[3][3], det = 0;
+    for (int i = 0; i < 3; i++) for (int j = 0; j < 3; j++) {
+        int i1 = (i + 1) % 3, i2 = (i + 2) % 3, j1 = (j + 1) % 3, j2 = (j + 2) % 3;
+        cof[i][j] = (i128)m->matrix[i1][j1] * m->matrix[i2][j2] - (i128)m->matrix[i1][j2] * m->matrix[i2][j1];
+    }
+    long double T = 0;   /* sum of |terms| of the determinant, raw48 */
+    for (int j = 0; j < 3; j++) {
+        int j1 = (j + 1) % 3, j2 = (j + 2) % 3;
+        det += (i128)m->matrix[0][j] * cof[0][j];
+        T += fabsl((long double)m->matrix[0][j]) * (fabsl((long double)m->matrix[1][j1] * m->matrix[2][j2]) + fabsl((long double)m->matrix[1][j2] * m->matrix[2][j1]));
+    }
+    pixman_transform_t out; memset(&out, 0x33, sizeof out);
+    void *args[2] = { &out, (void *)m };
+    int ret = c11_guard(thunk_invert, args);
+    char mb[400], ob[400], q0[48], q1[48], q2[48];
+    if (ret < 0) { c11_fail("c11-invert-abort", "pixman_transform_invert aborts: %s; M=%s", c11_abort_msg, mat_str(m, mb, sizeof mb)); return; }
+    if (det == 0) {
+        ST_ADD(inv_singular, 1); (*nt)++;
+        if (ret) c11_fail("c11-invert-true-on-singular", "pixman_transform_invert returned TRUE (%s) for a matrix whose determinant is exactly 0; M=%s", mat_str(&out, ob, sizeof ob),
+                          mat_str(m, mb, sizeof mb));
+        vf_outcome(90 + (uint64_t)ret);
+        return;
+    }
+    /* inverse[i][j] = cof[j][i] / det (real) = cof[j][i] * 2^32 / det in 16.16 units */
+    long double adet = fabsl((long double)det), gamma = 16.0L / 9007199254740992.0L;   /* 16 * 2^-53 */
+    int demanded = 1, overflow = 0, near_limit = 0;
+    iv_t adm[3][3];
+    for (int i = 0; i < 3; i++) for (int j = 0; j < 3; j++) {
+        i128 c = cof[j][i];
+        adm[i][j] = adm_div(c * ((i128)1 << 32), det, 1, NULL, NULL);
+        int j1 = (i + 1) % 3, j2 = (i + 2) % 3, i1 = (j + 1) % 3, i2 = (j + 2) % 3;   /* cof[j][i] is built from rows j+1,j+2 and columns i+1,i+2 */
+        long double C = fabsl((long double)m->matrix[i1][j1] * m->matrix[i2][j2]) + fabsl((long double)m->matrix[i1][j2] * m->matrix[i2][j1]);
+        long double inv_units = fabsl((long double)c) * 4294967296.0L / adet;
+        /* forward error bound of a double evaluation of cof/det, in 16.16 units */
+        long double bound = gamma * (inv_units * T / adet + C * 4294967296.0L / adet);
+        if (bound > 0.25L) demanded = 0;
+        if (inv_units > 2147483648.0L + 1) overflow = 1;
+        else if (inv_units > 2147418112.0L - 1) near_limit = 1;     /* beyond 32767.0: the library refuses, representable or not: either */
+    }
+    if (!demanded) { ST_ADD(inv_illcond, 1); vf_outcome(95 + (uint64_t)ret); return; }
+    (*nt)++;
+    ST_ADD(inv_demanded, 1);
+    if (overflow) {
+        ST_ADD(inv_overflow, 1);
+        if (ret) c11_fail("c11-invert-true-on-overflow", "pixman_transform_invert returned TRUE (%s) although an entry of the exact inverse exceeds 16.16; M=%s", mat_str(&out, ob, sizeof ob),
+                          mat_str(m, mb, sizeof mb));
+        vf_outcome(97 + (uint64_t)ret);
+        return;
+    }
+    if (!ret) {
+        if (!near_limit) c11_fail("c11-invert-false-on-invertible", "pixman_transform_invert returned FALSE for a well-conditioned matrix (det=%s/2^48) whose inverse fits 16.16; M=%s",
+                                  i128_str(det, q0), mat_str(m, mb, sizeof mb));
+        vf_outcome(99);
+        return;
+    }
+    for (int i = 0; i < 3; i++) for (int j = 0; j < 3; j++) if (!iv_has(adm[i][j], out.matrix[i][j])) {
+        c11_fail("c11-invert-inaccurate", "inverse[%d][%d] = %d, exact %s*2^32/%s, admissible (within one unit) from %s; M=%s result %s", i, j, out.matrix[i][j], i128_str(cof[j][i], q0),
+                 i128_str(det, q1), i128_str(adm[i][j].lo, q2), mat_str(m, mb, sizeof mb), mat_str(&out, ob, sizeof ob));
+        return;
+    }
+    vf_outcome(mat_hash(&out, 6));
+    if (sample_ok && c11_want_sample(4))
+        vf_sample("invert M=%s -> TRUE %s; every entry within one unit of adj*2^32/det, det=%s/2^48", mat_str(m, mb, sizeof mb), mat_str(&out, ob, sizeof ob), i128_str(det, q0));
+}
+
+static void invert_block(uint64_t idx, void *ctx)
+{
+    const inv_ctx *ic = ctx;
+    uint64_t n = 0, nt = 0;
+    pixman_transform_t m;
+    c11_blk_begin();
+    if (ic->mode == 0) {
+        int e[9]; uint64_t k = idx;
+        for (int i = 0; i < ic->outer; i++) { e[i] = (int)(k % ic->n); k /= ic->n; }
+        uint64_t inner = 1; for (int i = ic->outer; i < 9; i++) inner *= ic->n;
+        for (uint64_t q = 0; q < inner; q++) {
+            uint64_t kk = q;
+            for (int i = ic->outer; i < 9; i++) { e[i] = (int)(kk % ic->n); kk /= ic->n; }
+            for (int i = 0; i < 9; i++) m.matrix[i / 3][i % 3] = ic->al[e[i]];
+            n++; invert_one(&m, &nt, q == 1234 % inner && idx % 53 == 9);
+        }
+    } else {
+        int row = (int)(idx % 4); uint64_t k = idx / 4; int e[6];
+        e[0] = (int)(k % ic->n); e[1] = (int)(k / ic->n % ic->n);
+        for (int j = 0; j < 3; j++) m.matrix[2][j] = IR[row][j];
+        uint64_t inner = (uint64_t)ic->n * ic->n * ic->n * ic->n;
+        for (uint64_t q = 0; q < inner; q++) {
+            uint64_t kk = q;
+            for (int i = 2; i < 6; i++) { e[i] = (int)(kk % ic->n); kk /= ic->n; }
+            for (int i = 0; i < 6; i++) m.matrix[i / 3][i % 3] = ic->al[e[i]];
+            n++; invert_one(&m, &nt, q == 777 % inner && idx % 31 == 3);
+        }
+    }
+    c11_blk_end();
+    vf_count_eval(n); vf_count_nontrivial(nt); vf_count_libcalls(n);
+}
+
+/* ---------------------------------------------------------------- predicates */
+/* Reference: the documented tolerance (2 units) evaluated without 32-bit wrap-around. */
+static int r_within(int64_t a, int64_t b, int64_t eps) { int64_t t = a - b; if (t < 0) t = -t; return t <= eps; }
+#define R_SAME(a, b) r_within((a), (b), 2)
+#define R_ZERO(a) r_within((a), 0, 2)
+#define R_ONE(a) r_within((a), 65536, 2)
+#define R_INT(a) R_ZERO((a) & 0xffff)
+static int r_is_identity(const pixman_transform_t *t)
+{
+    const pixman_fixed_t (*m)[3] = t->matrix;
+    return R_SAME(m[0][0], m[1][1]) && R_SAME(m[0][0], m[2][2]) && !R_ZERO(m[0][0]) && R_ZERO(m[0][1]) && R_ZERO(m[0][2]) && R_ZERO(m[1][0]) &&
+           R_ZERO(m[1][2]) && R_ZERO(m[2][0]) && R_ZERO(m[2][1]);
+}
+static int r_is_scale(const pixman_transform_t *t)
+{
+    const pixman_fixed_t (*m)[3] = t->matrix;
+    return !R_ZERO(m[0][0]) && R_ZERO(m[0][1]) && R_ZERO(m[0][2]) && R_ZERO(m[1][0]) && !R_ZERO(m[1][1]) && R_ZERO(m[1][2]) && R_ZERO(m[2][0]) &&
+           R_ZERO(m[2][1]) && !R_ZERO(m[2][2]);
+}
+static int r_is_int_translate(const pixman_transform_t *t)
+{
+    const pixman_fixed_t (*m)[3] = t->matrix;
+    return R_ONE(m[0][0]) && R_ZERO(m[0][1]) && R_INT(m[0][2]) && R_ZERO(m[1][0]) && R_ONE(m[1][1]) && R_INT(m[1][2]) && R_ZERO(m[2][0]) &&
+           R_ZERO(m[2][1]) && R_ONE(m[2][2]);
+}
+static const int32_t P8[8] = { 0, 2, -3, 0x10000, 0x10002, FX_MIN, 0x2fffe, FX_MAX };
+typedef struct { int n, outer; } pred_ctx;
+
+static void pred_block(uint64_t idx, void *ctx)
+{
+    const pred_ctx *pc = ctx;
+    int e[9]; uint64_t k = idx, n = 0, ntrue = 0;
+    for (int i = 0; i < pc->outer; i++) { e[i] = (int)(k % pc->n); k /= pc->n; }
+    uint64_t inner = 1; for (int i = pc->outer; i < 9; i++) inner *= pc->n;
+    pixman_transform_t m; char mb[400];
+    c11_blk_begin();
+    for (uint64_t q = 0; q < inner; q++) {
+        uint64_t kk = q;
+        for (int i = pc->outer; i < 9; i++) { e[i] = (int)(kk % pc->n); kk /= pc->n; }
+        for (int i = 0; i < 9; i++) m.matrix[i / 3][i % 3] = P8[e[i]];
+        n++;
+        int got[3] = { pixman_transform_is_identity(&m), pixman_transform_is_scale(&m), pixman_transform_is_int_translate(&m) };
+        int exp[3] = { r_is_identity(&m), r_is_scale(&m), r_is_int_translate(&m) };
+        static const char *pn[3] = { "is_identity", "is_scale", "is_int_translate" };
+        ntrue += exp[0] | exp[1] | exp[2];
+        for (int p = 0; p < 3; p++) if (!!got[p] != exp[p]) {
+            int has_ext = 0; for (int i = 0; i < 9; i++) if (P8[e[i]] == FX_MIN || P8[e[i]] == FX_MAX) has_ext = 1;
+            char key[64]; snprintf(key, sizeof key, has_ext ? "c11-within-epsilon-wraps" : "c11-%s-wrong", pn[p]);
+            for (char *c = key; *c; c++) if (*c == '_') *c = '-';
+            c11_fail(key, "pixman_transform_%s returned %d, expected %d (tolerance 2 units evaluated without 32-bit wrap-around; |INT32_MIN| and max-min overflow in within_epsilon); M=%s",
+                     pn[p], got[p], exp[p], mat_str(&m, mb, sizeof mb));
+        }
+        if ((exp[0] | exp[1] | exp[2]) && q % 4099 == 17 && idx % 23 == 1 && c11_want_sample(5))
+            vf_sample("predicates M=%s -> is_identity=%d is_scale=%d is_int_translate=%d (as the reference)", mat_str(&m, mb, sizeof mb), got[0], got[1], got[2]);
+    }
+    vf_outcome(vf_mix(idx, ntrue));
+    c11_blk_end();
+    vf_count_eval(n); vf_count_nontrivial(ntrue); vf_count_libcalls(3 * n);
+    ST_ADD(pred_true, ntrue); ST_ADD(pred_false, n - ntrue);
+}
+
+/* is_inverse(a, b) == multiply succeeds and the product is_identity */
+typedef struct { int nm; } isinv_ctx;
+static void isinv_block(uint64_t idx, void *ctx)
+{
+    const isinv_ctx *c = ctx;
+    uint64_t total = 1; for (int i = 0; i < 5; i++) total *= c->nm;
+    pixman_transform_t a, b, t; char ab[400], bb[400];
+    srt_matrix(idx, c->nm, &a);
+    uint64_t n = 0, ntrue = 0;
+    c11_blk_begin();
+    for (uint64_t j = 0; j < total; j++) {
+        srt_matrix(j, c->nm, &b);
+        /* make b a plausible inverse in some cases: for diagonal a with entries in {1, -1/2..}, transposition keeps the catalogue closed */
+        n++;
+        int got = pixman_transform_is_inverse(&a, &b);
+        int exp = pixman_transform_multiply(&t, &a, &b) ? r_is_identity(&t) : 0;
+        ntrue += exp;
+        int ext = 0; for (int i = 0; i < 9; i++) if (t.matrix[i / 3][i % 3] == FX_MIN || t.matrix[i / 3][i % 3] == FX_MAX) ext = 1;
+        if (!!got != exp) c11_fail(ext ? "c11-within-epsilon-wraps" : "c11-is-inverse-wrong", "pixman_transform_is_inverse returned %d, expected %d (multiply, then identity test without wrap-around); a=%s b=%s", got, exp,
+                                   mat_str(&a, ab, sizeof ab), mat_str(&b, bb, sizeof bb));
+    }
+    vf_outcome(vf_mix(idx + 1000003, ntrue));
+    c11_blk_end();
+    vf_count_eval(n); vf_count_nontrivial(ntrue); vf_count_libcalls(2 * n);
+    ST_ADD(pred_true, ntrue); ST_ADD(pred_false, n - ntrue);
+}
+
+static void c11_run_ops(int th)
+{
+    static srt_ctx sc; sc.nm = th ? 5 : 3;
+    uint64_t nm = 1; for (int i = 0; i < 5; i++) nm *= sc.nm;
+    vf_space_run("scale-rotate-translate", nm * 9, srt_block, &sc);
+
+    static bnd_ctx bc; bc.nbox = th ? 400 : 100;
+    vf_space_run("bounds", 5 * 5 * 5 * 5 * 5 * 5 * 4, bounds_block, &bc);
+
+    static inv_ctx i9, ia;
+    i9.al = th ? A6 : A5; i9.n = th ? 6 : 5; i9.outer = 4; i9.mode = 0;
+    uint64_t nb = 1; for (int i = 0; i < 4; i++) nb *= i9.n;
+    vf_space_run(th ? "invert-3x3-A6" : "invert-3x3-A5", nb, invert_block, &i9);
+    ia.al = A7X; ia.n = 7; ia.mode = 1;
+    vf_space_run("invert-affine-extremes", 7 * 7 * 4, invert_block, &ia);
+
+    static pred_ctx pc; pc.n = th ? 8 : 6; pc.outer = 4;
+    uint64_t pb = 1; for (int i = 0; i < 4; i++) pb *= pc.n;
+    vf_space_run("predicates", pb, pred_block, &pc);
+    static isinv_ctx iv; iv.nm = th ? 4 : 3;
+    uint64_t ni = 1; for (int i = 0; i < 5; i++) ni *= iv.nm;
+    vf_space_run("is-inverse", ni, isinv_block, &iv);
+}
+
 #endif
